@@ -275,6 +275,42 @@ func H17_unify() {
 	g := &tgen{va: types.TyVar("a"), vb: types.TyVar("b"), vars: true}
 	s := g.gen(genDepth(), "s")
 	t := g.gen(1, "t")
+	checkUnify(g, s, t)
+}
+
+// H17_pairs: argument tuples, as the checker builds them: the two variables
+// against two depth-1 types that may mention them (so that the second
+// component is unified under a binding made by the first), in both
+// orientations.
+func H17_pairs() {
+	g := &tgen{va: types.TyVar("a"), vb: types.TyVar("b"), vars: true}
+	vars := types.Tuple([]*types.Type{g.va, g.vb})
+	if sv.Choice("vars-swapped", 2) == 1 {
+		vars = types.Tuple([]*types.Type{g.vb, g.va})
+	}
+	comp := func(name string) *types.Type {
+		switch sv.Choice(name+".k", 4) {
+		case 0:
+			return g.leaf(name)
+		case 1:
+			return types.List(g.leaf(name + ".el"))
+		case 2:
+			return types.Maybe(g.leaf(name + ".some"))
+		default:
+			return ObjT([]string{"a", "b"}, []*types.Type{g.leaf(name + ".a"), g.leaf(name + ".b")})
+		}
+	}
+	tys := types.Tuple([]*types.Type{comp("p"), comp("q")})
+	if sv.Choice("orientation", 2) == 0 {
+		checkUnifySound(g, vars, tys, false)
+	} else {
+		checkUnifySound(g, tys, vars, false)
+	}
+}
+
+func checkUnify(g *tgen, s, t *types.Type) { checkUnifySound(g, s, t, true) }
+
+func checkUnifySound(g *tgen, s, t *types.Type, complete bool) {
 	m := map[string]*types.Type{}
 	var u *types.Type
 	cls := sv.Outcome(func() { u = types.Unify(s, t, m) })
@@ -296,6 +332,9 @@ func H17_unify() {
 		for name, img := range m {
 			sv.Assert("no-variable-bound-to-a-type-containing-it", !refOccurs(name, refApply(img, m, 8)) || (img.Kind == types.KTyVar && img.TyVar().Name == name))
 		}
+	}
+	if !complete {
+		return
 	}
 	// completeness for pattern vs variable-free type (either side)
 	if !refHasVar(t, g) {
